@@ -77,6 +77,28 @@ Example attribute_step_nonvacuous :
   In (mkAttr (Some (AGen 0), U 3) 1 (5, U 3)) (pattrs (exec_attr s (Some (U 1), U 3) (Some 5) None 1)).
 Proof. vm_compute. repeat split; try discriminate. right. right. left. reflexivity. Qed.
 
+(* ---- xsl:copy / xsl:copy-of: the ancestor walk of copyNamespaceAttributes ---- *)
+
+(* for every prefix (and for the default namespace) the declaration offered to the result is the
+   NEAREST one on the ancestor-or-self axis of the copied source element: a declaration on a nearer
+   element shadows the declarations of the same prefix on farther ancestors *)
+Theorem copy_ns_nearest_declaration_wins : forall p levels,
+  ctx_lookup p (copy_ns_offered levels) = ctx_lookup p (concat levels).
+Proof. exact copy_ns_nearest_wins_l. Qed.
+Print Assumptions copy_ns_nearest_declaration_wins.
+
+(* once a prefix has been seen, nothing farther is offered for it *)
+Theorem copy_ns_visited_prefix_not_offered : forall p levels visited, mem_pfx p visited = true ->
+  ctx_lookup p (copy_ns_walk levels visited) = None.
+Proof. exact copy_ns_walk_seen. Qed.
+Print Assumptions copy_ns_visited_prefix_not_offered.
+
+(* <a xmlns:p="outer" xmlns="d-outer"><b xmlns:p="inner" xmlns="d-inner"><p:c/></b></a>, copy of p:c *)
+Example copy_ns_shadowing_example :
+  copy_ns_offered [[]; [(Some (U 1), 5); (None, 7)]; [(Some (U 1), 4); (None, 6)]]
+  = [(Some (U 1), 5); (None, 7)].
+Proof. vm_compute. reflexivity. Qed.
+
 (* ---- the compile-time clauses (exclude-result-prefixes) for literal result elements ---- *)
 
 Theorem lre_declares_only_allowed : forall name inscope excl attrs d,
